@@ -66,6 +66,8 @@ def fmt_origin(o: Origin) -> str:
         return f"self.sig_{o[1]}[{o[2]}]"
     if k == "newsig":
         return f"Signal() created at L{o[1]}"
+    if k == "shared":
+        return f"the memoised result of {o[1].split('.')[-1]}()"
     if k == "field":
         return f"{fmt_origin(o[1])}.{o[2]}"
     return str(o)
@@ -657,6 +659,20 @@ class Alias:
             if kw.arg == "out":
                 v = self.eval(kw.value, env)
                 self.add_sink(n, st, "out=", v.orig, target=kw.value)
+            elif kw.arg and kw.arg.startswith("overwrite_") and isinstance(kw.value, ast.Constant) and kw.value.value is True:
+                # scipy.linalg style: overwrite_a / overwrite_b / overwrite_x allow the routine to destroy that operand
+                which = kw.arg[len("overwrite_"):]
+                target = None
+                for k2 in c.keywords:
+                    if k2.arg == which:
+                        target = k2.value
+                if target is None:
+                    pos = {"a": 0, "x": 0, "ab": 0, "b": 1, "c": 0, "r": 1}.get(which)
+                    if pos is not None and pos < len(c.args):
+                        target = c.args[pos]
+                if target is not None:
+                    v = self.eval(target, env)
+                    self.add_sink(n, st, f"{kw.arg}=True", v.orig, target=target)
         dotted = self.m.expr_dotted(self.f.module, fn) if isinstance(fn, (ast.Name, ast.Attribute)) else None
         if dotted and dotted.startswith("numpy.") and dotted[6:] in T.MUT_FUNCS_ARG0 and c.args:
             v = self.eval(c.args[0], env)
@@ -987,6 +1003,9 @@ class Alias:
 
     def apply_summary_value(self, c: ast.Call, g: FuncInfo, env) -> Val:
         m = self.m
+        if is_memoised(g):
+            # every caller receives the same object: treat the result as shared memory
+            return Val(frozenset([("shared", g.qual)]), UNK)
         if g.name == "__init__" and isinstance(c.func, (ast.Name, ast.Attribute)) and not (
                 isinstance(c.func, ast.Attribute) and c.func.attr == "__init__"):
             # constructor call: fresh object that may retain some arguments
@@ -1019,6 +1038,14 @@ class Alias:
                 else:
                     o |= {o_field(x, a) for x in recv.orig if x != SELF}
         return Val(frozenset(o), UNK)
+
+
+def is_memoised(g: FuncInfo) -> bool:
+    for d in g.node.decorator_list:
+        t = ast.unparse(d)
+        if "lru_cache" in t or t.split("(")[0].split(".")[-1] in ("cache", "cached_property", "memoize", "memoized"):
+            return True
+    return False
 
 
 def join_env(a: Dict[str, Val], b: Dict[str, Val]) -> Dict[str, Val]:
